@@ -2,7 +2,7 @@
 From LV Require Import Base FS FSFacts LayerShared LayerSharedFacts LayerSharedGone LayerSharedTotal.
 From LV Require Import ImpPrims ImpTypes.
 From LVGen Require Import GenLayerShared GenLayerSharedImp.
-From LV Require LayerSbomsFacts ReadLayerFacts Determinism RecreateModelFacts.
+From LV Require LayerSbomsFacts ReadLayerFacts Determinism RecreateModelFacts KeepModelFacts.
 From LV.Checks Require C11Hold C11Agree.
 
 Theorem c11_tables :
@@ -277,3 +277,17 @@ Theorem c11_recreate_model_exact :
       (forall q, owned (map LV.LayerSbomsFacts.sbom_suffix_of SBOM_FORMATS) layers n q = false -> pget q s1 = pget q s).
 Proof. exact LV.RecreateModelFacts.recreate_model_exact. Qed.
 Print Assumptions c11_recreate_model_exact.
+
+(* ---- the keep operation as the stream compares it with a keeping BuildContext::cached_layer: C11Agree.keep_model
+   (read_layer, then replace_layer_types, each regenerated from the source).  On an existing layer with a regular
+   readable and writable content-metadata file the request ends Ok and the ONLY change in the whole file system is
+   that document (same mode, new contents): a kept layer's files, SBOMs and every other layer stay as they are. *)
+Theorem c11_keep_model_exact :
+  forall layers n s md m c res post,
+    valid_name n = true -> LV.Determinism.simple_dir s layers ->
+    pget (layers ++ [n]) s = Some (Dir md) ->
+    pget (layers ++ [toml_name n]) s = Some (File m c) -> has_r m = true -> has_w m = true ->
+    LV.Checks.C11Agree.keep_model (LV.Checks.C11Hold.mkCase s layers n LV.Checks.C11Hold.OpKeep res post) =
+      (pset (layers ++ [toml_name n]) (File m (Doc (Toml.TTbl []))) s, Ok tt).
+Proof. exact LV.KeepModelFacts.keep_model_exact. Qed.
+Print Assumptions c11_keep_model_exact.
